@@ -58,6 +58,8 @@ func main() {
 		os.Exit(cmdReplay(os.Args[2:]))
 	case "selftest":
 		os.Exit(cmdSelftest(os.Args[2:]))
+	case "fstest":
+		os.Exit(cmdFstest(os.Args[2:]))
 	case "gen":
 		os.Exit(cmdGen(os.Args[2:]))
 	}
@@ -343,6 +345,7 @@ func cmdCheck(args []string) int {
 
 	// ---- failures: shrink, verify the replay three times, announce
 	violations := 0
+	unconfirmedRaces := 0
 	sort.Slice(agg.Failures, func(i, j int) bool { return agg.Failures[i].Run < agg.Failures[j].Run })
 	seenSig := map[string]bool{}
 	os.MkdirAll(filepath.Join(verifDir, "replays"), 0755)
@@ -364,19 +367,23 @@ func cmdCheck(args []string) int {
 			if check.IsKnownSig(s, sig) {
 				continue // attributed to a listed finding; its witness is re-run below
 			}
-			n := 0
-			for i := 0; i < 3; i++ {
+			// ThreadSanitizer evicts shadow cells at random, so a genuine race can
+			// go unreported in a replay (a report is never a false positive): up to
+			// six fresh race-build processes, announced once it reproduced twice
+			n, tries := 0, 0
+			for tries < 6 && n < 2 {
+				tries++
 				if raceReplay(path, false) == 1 {
 					n++
 				}
 			}
-			// ThreadSanitizer evicts shadow cells at random, so a genuine race can
-			// go unreported in a replay; a report is never a false positive.
 			if n == 0 {
-				fmt.Fprintf(os.Stderr, "check: data race of run %d (seed %d) reproduced 0/3 times in fresh processes; reported as tool trouble\n", f.Run, f.Seed)
-				return 2
+				unconfirmedRaces++
+				fmt.Fprintf(os.Stderr, "check: data race of run %d (seed %d, %s) did not reproduce in %d fresh processes; not announced\n", f.Run, f.Seed, sig, tries)
+				os.Remove(path)
+				continue
 			}
-			hit.Note = fmt.Sprintf("reproduced %d/3 times in fresh race-detector processes", n)
+			hit.Note = fmt.Sprintf("reproduced %d times in %d fresh race-detector processes", n, tries)
 			check.WriteReplay(path, hit)
 			violations++
 			fmt.Printf("VIOLATION property=%s replay=%s\n", s.ID, path)
@@ -507,6 +514,10 @@ func cmdCheck(args []string) int {
 		s.ID, *tier, agg.Runs, len(distinct), len(states), agg.Images, agg.Faults, violations, kn, time.Since(start).Seconds())
 	if violations > 0 {
 		return 1
+	}
+	if unconfirmedRaces > 0 {
+		fmt.Fprintf(os.Stderr, "check: %d data race report(s) could not be reproduced from their replay files — tool trouble, not a verdict\n", unconfirmedRaces)
+		return 2
 	}
 	if agg.Runs == 0 {
 		fmt.Fprintln(os.Stderr, "check: no runs executed")
